@@ -290,7 +290,8 @@ def check(ck):
     # Payload.notify per version region
     pn = prog.func("jsonrpc", "Payload.notify")
     for region, rep in spec.VERSION_REGIONS.items():
-        for ptag, pval in (("params", shape.Sym("params", truthy=True)), ("noparams", shape.K(None))):
+        for ptag, pval in (("params", shape.Sym("params", truthy=True, pytype=list)), ("params", shape.Sym("params", truthy=True, pytype=dict)),
+                           ("noparams", shape.K(None))):
             ev = shape.Evaluator(prog, "jsonrpc")
 
             def mk(rep=rep):
